@@ -954,7 +954,7 @@ def run(ctx):
     ctx.cov["conditional_spd_conditions"] = {
         "TransverselyIsotropic": "El,Et,Gl <> 0 and (1-vt)*El - 2*vl^2*Et > 0 (kt > 0; not enforced by the constructor)",
         "Orthotropic": "all moduli <> 0, E3*v23^2 < E2 (asserted in _Behavior) and c_ij denominator < 0 (not enforced)"}
-    ctx.copy_props("C11/C11_wf.v", "C11/C11_laws.v", "C11/C11_pmat.v", "C11/C11_pmat_norm.v", "C11/C11_aniso.v", "C11/C11_aniso3d.v", "C11/C11_lazy.v", "C11/C11_rot.v")
+    ctx.copy_props("C11/C11_wf.v", "C11/C11_laws.v", "C11/C11_pmat.v", "C11/C11_pmat_norm.v", "C11/C11_aniso.v", "C11/C11_aniso3d.v", "C11/C11_lazy.v", "C11/C11_rot.v", "C11/C11_rotinv.v", "C11/C11_rotinv_laws.v", "C11/C11_spdiff.v")
     res = {}
     holder = {}
 
@@ -980,9 +980,9 @@ def run(ctx):
         else:
             coq_ok = True
             th += [threading.Thread(target=job, args=("pmat", ["C11_pmat.v", "C11_pmat_norm.v"])),
-                   threading.Thread(target=job, args=("rot", ["C11_rot.v"]))]
+                   threading.Thread(target=job, args=("rot", ["C11_rot.v", "C11_rotinv.v"]))]
             if lw is not None:
-                th += [threading.Thread(target=job, args=("laws", ["C11_laws.v"])),
+                th += [threading.Thread(target=job, args=("laws", ["C11_laws.v", "C11_spdiff.v"])),
                        threading.Thread(target=job, args=("aniso", ["C11_aniso.v"])),
                        threading.Thread(target=job, args=("aniso3d", ["C11_aniso3d.v"]))]
     if not (coq_ok and lw is not None):
@@ -991,6 +991,10 @@ def run(ctx):
         t.start()
     for t in th:
         t.join()
+    # rotated regenerated laws: needs C11_pmat.v, C11_laws.v and C11_rotinv.v
+    if all(k in res for k in ("pmat", "rot", "laws")) and res["rot"].ok and res["laws"].ok and \
+            (res["pmat"].ok or res["pmat"].failed_file == "C11_pmat_norm.v"):
+        job("rotlaws", ["C11_rotinv_laws.v"])
     tc.join()
     # C11_pmat_norm.v is compiled right after C11_pmat.v; tell the two apart
     if "pmat" in res:
@@ -1029,7 +1033,7 @@ def run(ctx):
     # ---- correspondence (+ property predicates on the implementation's outputs = the search) ran in parallel
     viol = holder.get("viol")
     # ---- other broken proofs: report (the predicates above give the failing input if the property is violated)
-    for name in ("laws", "pmat", "lazy", "aniso", "rot"):
+    for name in ("laws", "pmat", "lazy", "aniso", "rot", "rotlaws"):
         r = res.get(name)
         if r is not None and not r.ok:
             ctx.violation("proof-broken:%s" % r.failed_file,
